@@ -5,12 +5,7 @@ sys.path.insert(0, os.path.join(ROOT, "lib"))
 import vcommon as V
 V.build_lib("plain")
 V.build_prog("vsim", ["harness/vsim_main.cpp"])
-V.coq_project()
-rc, o, e = V.sh(["make", "-k", "-j%d" % V.NPROC], cwd=V.COQ, timeout=7200)
-print(o[-2000:]); print(e[-2000:])
-for f in glob.glob(os.path.join(V.COQ, "*.ml")) + glob.glob(os.path.join(V.COQ, "*.mli")):
-    os.remove(f)
-# per-property setup hooks (build harness programs and models)
+mods = []
 for p in sorted(glob.glob(os.path.join(ROOT, "props", "*", "check.py"))):
     pid = os.path.basename(os.path.dirname(p))
     spec = importlib.util.spec_from_file_location("check_" + pid, p)
@@ -18,6 +13,22 @@ for p in sorted(glob.glob(os.path.join(ROOT, "props", "*", "check.py"))):
     sys.path.insert(0, os.path.dirname(p))
     try:
         spec.loader.exec_module(mod)
+        mods.append((pid, mod))
+        # presetup(): regenerate coq/Gen/*.v (tables dumped from the freshly built binary) BEFORE the Coq build
+        if hasattr(mod, "presetup"):
+            mod.presetup()
+    except Exception as ex:
+        print("presetup of %s: %s" % (pid, ex))
+    sys.path.pop(0)
+V.coq_project()
+rc, o, e = V.sh(["make", "-k", "-j%d" % V.NPROC], cwd=V.COQ, timeout=7200)
+print(o[-2000:]); print(e[-2000:])
+for f in glob.glob(os.path.join(V.COQ, "*.ml")) + glob.glob(os.path.join(V.COQ, "*.mli")):
+    os.remove(f)
+# per-property setup hooks (build harness programs and models)
+for pid, mod in mods:
+    sys.path.insert(0, os.path.join(ROOT, "props", pid))
+    try:
         if hasattr(mod, "setup"):
             mod.setup()
     except Exception as ex:
